@@ -335,5 +335,49 @@ def b4_decode(F, R):
                     break
             if bad:
                 break
+            # next-pointer handling: continue at `next` iff it is non-zero, 4-aligned and >= 0x40
+            for nxt_ in (0, 0x02, 0x3c, 0x40, 0x41, 0x42, 0x44, 0x48, 0x80, 0xfc, 0xfe, 0xff):
+                word = 0x00100009 | (nxt_ << 8)
+
+                def leaf2(t, word=word):
+                    if t[0] == 'call' and 'read_word' in t[2]:
+                        return word
+                    s_ = fmt(t)
+                    if 'next_capability_offset' in s_:
+                        if t[0] == 'discr':
+                            return 1
+                        return off
+                    if 'log::' in s_:
+                        return 0    # logging disabled: the diagnostic branch does not affect the iterator state
+                    raise Unfoldable(s_[:80])
+                fo = Folder(leaf2)
+                hit = None
+                for p in paths:
+                    if not p.panicked and path_holds(fo, p):
+                        hit = p
+                        break
+                rows += 1
+                if hit is None:
+                    bad = 'no path for next pointer %#x' % nxt_
+                    break
+                st = [e for e in hit.effects if e[0] == 'store' and 'next_capability_offset' in fmt(e[2])]
+                if not st:
+                    bad = 'next pointer %#x: the iterator position is not updated' % nxt_
+                    break
+                v = st[-1][3]
+                if v[0] == 'agg' and v[1].endswith('::None'):
+                    got_n = None
+                elif v[0] == 'agg' and v[1].endswith('::Some'):
+                    got_n = fo.ev(v[2][0])
+                else:
+                    bad = 'unrecognised next position %s' % fmt(v)[:60]
+                    break
+                want_n = nxt_ if (nxt_ != 0 and nxt_ % 4 == 0 and nxt_ >= 0x40) else None
+                if got_n != want_n:
+                    bad = 'capability at %#x with next pointer %#x: iteration continues at %s, a well-formed list requires %s' % (
+                        off, nxt_, hex(got_n) if got_n is not None else 'end', hex(want_n) if want_n is not None else 'end')
+                    break
+            if bad:
+                break
         R.tables += rows
         R.check(bad is None, 'B4', '%s:decode' % b['id'], where, 'capability header decoded per PCI 3.0 6.7 on %d rows' % rows, 'capability iterator: %s' % bad)
